@@ -86,6 +86,22 @@ def run(ctx):
                 report('same-dimension-raises', 'conversion %s -> %s (dimension %s) raised %s: %s' % (a.code, b.code, dim, type(e).__name__, e),
                        dict(a=a.code, b=b.code))
                 continue
+            # integer arrays (an int32 milliseconds channel, int16 whole degrees) convert to the same numbers as their elements do
+            if npairs % 5 == 0:
+                ints = [0, 1, 250, 1500, -40, 32767]
+                for dt in (np.int32, np.int16, np.uint16):
+                    ia = np.array([x for x in ints if np.iinfo(dt).min <= x <= np.iinfo(dt).max], dtype=dt)
+                    try:
+                        got_a = OU.convert_array(ia.copy(), a, b)
+                        for x, y in zip(ia.tolist(), np.asarray(got_a).tolist()):
+                            ev_ = conv_exact(Fraction(x), fa, fb)
+                            if math.isfinite(y) and abs(Fraction(y) - ev_) > bound1(Fraction(x), fa, fb):
+                                report('value', 'convert_array(%s array [%r], %s, %s) gives %r but Conv = %.17g' % (dt.__name__, x, a.code, b.code, y, float(ev_)),
+                                       dict(a=a.code, b=b.code, v=x, fn='convert_array', dtype=dt.__name__))
+                                break
+                    except Exception as e:
+                        report('same-dimension-raises', 'convert_array of a %s array %s -> %s raised %s: %s' % (dt.__name__, a.code, b.code, type(e).__name__, e),
+                               dict(a=a.code, b=b.code))
             for i, v in enumerate(vs):
                 ev = conv_exact(Fraction(v), fa, fb)
                 tol = bound1(Fraction(v), fa, fb)
